@@ -6,6 +6,14 @@ ALL = [
     ('vmatch', 'asan', dict(extra_flags=['-I' + common.REPO + '/test/src'])),
     ('vdrv', 'asan', {}),
     ('vxform', 'asan', dict(transform=True)),
+    ('vjson', 'asan', {}),
+    ('vlua', 'asan', {}),
+    ('vpml', 'asan', {}),
+    ('vthr', 'asan', {}),
+    ('vthr', 'tsan', {}),
+    ('vthr', 'plain', {}),
+    ('vdrv', 'plain', {}),
+    ('vxform', 'plain', dict(transform=True)),
 ]
 
 
